@@ -771,12 +771,12 @@ fn main() {
         match mode {
             "A" => {
                 run_history(&h, 1, true, &mut out);
-                run_history(&h, 2, false, &mut out);
+                run_history(&h, 2, true, &mut out);
                 if h["kind"].as_str().unwrap_or("native") == "native" {
                     run_history(&h, 3, false, &mut out);
                 }
             }
-            "B" => run_history(&h, 4, false, &mut out),
+            "B" => run_history(&h, 4, true, &mut out),
             "1" => run_history(&h, 1, true, &mut out),
             other => panic!("mode {}", other),
         }
